@@ -19,7 +19,7 @@ func init() {
 		LevelText:   "Crash points are a runtime quantity; enumerating them is fault injection, a different technique family. Decided for all paths are ordering and ownership clauses without which no crash point can recover: log bytes are written before their index entries and a failed log write leaves the index untouched; the two checkpoint files are only ever replaced atomically; segment replacement closes both segments before the first rename, renames log then index, stops at the first error and re-derives the index afterwards; every kind of file the package can create is handled by the recovery scan (loaded, removed, or ignored with a reason); the epoch cache is trimmed to the log after open and before anything runs; truncate and the clean swap hold the log lock throughout.",
 		LevelNote:   "Trusted: go/ssa; natefinch/atomic's rename-based replacement; process-crash model (the OS keeps what was written).",
 		DesignRef:   "DESIGN.md §4 C05",
-		Explanation: "Round 10: R05.8 also: every message of a recovered epoch moves the epoch's start to its own offset. Round 9: not-exist tests see the os error; loaded epochs become the cache. Round 8: R05.5 also: append recognises a new leader epoch against the epoch cache itself (no copy beside it); R05.8 also: a rebuilt index's last entry is the one the bookkeeping uses, and the rebuild does not bound a message set by the segment limit. R01.1 (shared) offsets and positions come from the segment that is written. R05.8 also: the index is rebuilt into a file that was removed and created anew. R05.7 also: Truncate deletes the later segments newest first (F77); R05.8 also: epoch recovery assigns every missing epoch and the index rebuild accepts offset gaps. R05.1 log-then-index, R05.2 atomic checkpoints, R05.3 Replace ordering, R05.4 recovery exhaustiveness over file kinds, R05.5 epoch cache trimmed after open, R05.6 lock regions, R05.7 crash-safe ordering (log removed before index, epoch cache trimmed after the log, repeatable Delete), R05.8 a log ahead of its index is repaired at open, R02.8 (shared) epoch cache trims; R05.5 also fixes the shapes of open(). R14.6 (shared) errIndexCorrupt arrives unwrapped at setupIndex's identity test. NOT decided: the state reached from each individual crash point; index/log agreement after a torn write; the two-rename window of Replace.",
+		Explanation: "Round 12: R05.8 also: a partial write found at the rebuild is cut off the file; the epoch scan walks every segment; R05.5 also: every checkpoint entry enters the history. Round 10: R05.8 also: every message of a recovered epoch moves the epoch's start to its own offset. Round 9: not-exist tests see the os error; loaded epochs become the cache. Round 8: R05.5 also: append recognises a new leader epoch against the epoch cache itself (no copy beside it); R05.8 also: a rebuilt index's last entry is the one the bookkeeping uses, and the rebuild does not bound a message set by the segment limit. R01.1 (shared) offsets and positions come from the segment that is written. R05.8 also: the index is rebuilt into a file that was removed and created anew. R05.7 also: Truncate deletes the later segments newest first (F77); R05.8 also: epoch recovery assigns every missing epoch and the index rebuild accepts offset gaps. R05.1 log-then-index, R05.2 atomic checkpoints, R05.3 Replace ordering, R05.4 recovery exhaustiveness over file kinds, R05.5 epoch cache trimmed after open, R05.6 lock regions, R05.7 crash-safe ordering (log removed before index, epoch cache trimmed after the log, repeatable Delete), R05.8 a log ahead of its index is repaired at open, R02.8 (shared) epoch cache trims; R05.5 also fixes the shapes of open(). R14.6 (shared) errIndexCorrupt arrives unwrapped at setupIndex's identity test. NOT decided: the state reached from each individual crash point; index/log agreement after a torn write; the two-rename window of Replace.",
 	})
 }
 
